@@ -22,7 +22,7 @@ func init() {
 			"called with it held; P2: the backend report in handleResponseResult is dominated by the false edge of (queued != nil && Origin == PluginOnProxyOrigin).",
 		Explanation: "Decides: absence of self-deadlock by lock re-entry in all three handlers (sync.RWMutex is not re-entrant: the first QueueResourcePack on a < 1.20.3 client " +
 			"would never return), guarded state, origin gate of the backend report. Does not decide: prompt order, auto-decline rules, per-id tracking — those are value-level histories.",
-		Fixtures: []string{"lockset", "reentry"},
+		Fixtures: []string{"lockcycle", "lockset", "reentry"},
 	})
 	registry["C27"].Variants = []Variant{
 		{Name: "modern-queue-ticks-under-lock", File: pkgRP + "/handler_modern.go",
